@@ -34,7 +34,15 @@ def units(tier, seed, only=None):
         u = emu.gen_unit(name, 'spec', tier)
         u.timeout = 240
         if op.hard:
-            u.timeout = 600
+            # float multiply / divide: bit-precise value obligation, attempted in the thorough tier only (optional: an
+            # undecided attempt is reported as such, it does not make the check fail)
+            u.timeout = 900
+            u.optional = True
+            u.backends = ['kissat']
+            f = emu.gen_unit(name, 'frame', tier)
+            f.name = 'frameonly:emulate_' + name
+            f.contract_text = 'frame and memory safety only (companion of the optional value unit)'
+            us.append(f)
         us.append(u)
     if only:
         us = [u for u in us if re.search(only, u.name)]
